@@ -107,6 +107,7 @@ class SimKernel(object):
         self.ctx = None               # request context label (set by world)
         self.victims = None           # callable -> list of candidate pids
         self.spawn_observer = None
+        self.excl_probe = None        # -> name of the exclusive operation in flight
         self.preexec_probe = None     # callable run in a forked child after
                                       # circus' preexec function (see C07)
         self.log_calls = False
@@ -280,6 +281,7 @@ class SimKernel(object):
         rec["ncall"] = self.ncalls
         rec["beh"] = beh
         rec["owner"] = owner
+        rec["excl"] = self.excl_probe() if self.excl_probe else None
         if beh.get("exec_fail"):
             rec["failed"] = True
             rec["pid"] = None
